@@ -50,6 +50,42 @@ def scenario(k, cmds, order_seed):
         return out
     return fn
 
+def scenario_first_operations(k, variant):
+    """the bound from the very FIRST operation after the cluster formed: nothing is run unmeasured between formation and the measured
+    commands (a node's first operation after its role changed is where a decision taken on an out-of-date role would show)"""
+    firsts = [[(1, "auth adm pw"), (1, "create-db t tok"), (1, "use-db t tok"), (1, "set a 1")],
+              [(1, "auth adm pw"), (1, "create-user u1 pw"), (1, "create-db t tok"), (1, "use-db t tok"), (1, "increment n")],
+              [(2, "auth adm pw"), (2, "create-db t tok"), (2, "use-db t tok"), (2, "set a 1")]][variant]
+    def fn(net, rng):
+        if not cluster.form_cluster(net, k, rng): return [Failure("cluster-does-not-form", f"{k} nodes")]
+        for i in range(1, k + 1): net.op(i, "SESS 1")
+        plan = list(firsts)
+        for i in range(1, k + 1):
+            if not any(n == i for n, _ in plan): plan += [(i, "auth adm pw"), (i, "use-db t tok"), (i, "set b 2"), (i, "remove b")]
+        fails = []
+        for node, cmd in plan:
+            t0 = len(net.trace)
+            net.cmd(node, 1, cmd)
+            n = net.quiesce(rng, 200)
+            burst = net.trace[t0:]
+            role = "primary" if node == 1 else "secondary"
+            verb = cmd.split(" ")[0]
+            if n is None: return [Failure(f"self-sustaining-exchange:first-operations:{verb}@{role}", f"{cmd!r} on n{node} of {k}: still exchanging messages after 200 deliveries; last {burst[-6:]}")]
+            fwd = [b for b in burst if b[0] == "fwd"]
+            forwards = [b for b in fwd if b[1] != 1 and b[2] == 1]; copies = [b for b in fwd if b[1] == 1]; lateral = [b for b in fwd if b[1] != 1 and b[2] != 1]
+            acks = [b for b in burst if b[0] == "back" and b[3].startswith("ack ")]
+            per_sec = max([len([c for c in copies if c[2] == t]) for t in {c[2] for c in copies}] or [0])
+            where = f"{cmd!r} on n{node} ({role}) of {k}, the plan so far {plan[:plan.index((node, cmd)) + 1]}: forwards={len(forwards)} copies={len(copies)} acks={len(acks)} lateral={len(lateral)}; burst {burst}"
+            if lateral: fails.append(Failure(f"secondary-fans-out:first-operations:{verb}@{role}", where))
+            if len(forwards) > (0 if node == 1 else 1): fails.append(Failure(f"more-than-one-forward:first-operations:{verb}@{role}", where))
+            if per_sec > 1: fails.append(Failure(f"more-than-one-copy-per-secondary:first-operations:{verb}@{role}", where))
+            if len(acks) > len(copies): fails.append(Failure(f"more-acks-than-copies:first-operations:{verb}@{role}", where))
+        seen = set(); out = []
+        for f in fails:
+            if f.cls not in seen: seen.add(f.cls); out.append(f)
+        return out
+    return fn
+
 def measure(net, rng, primary, nodes, cmds, dead, label):
     """every command on every node of `nodes`; the burst of each is split into forwards to the primary, copies from it, lateral messages and acks"""
     fails = []
@@ -124,13 +160,15 @@ def scenarios(tier):
         chunks = [COMMANDS[i::4] for i in range(4)] if tier == "quick" else ([COMMANDS[i::2] for i in range(2)] + [list(reversed(COMMANDS))]) * 4
         for j, ch in enumerate(chunks):
             S.append((f"k{k}-commands-{j}", scenario(k, ch, j)))
+    for k in (2, 3):
+        for v in range(3): S.append((f"k{k}-first-operations-{v}", scenario_first_operations(k, v)))
     S.append(("k3-after-failover", scenario_failover(FAILOVER_CMDS)))
     S.append(("k3-after-primary-change", scenario_primary_change(FAILOVER_CMDS)))
     if tier != "quick": S.append(("k3-after-failover-b", scenario_failover(list(reversed(FAILOVER_CMDS)))))
     return S
 
 RULE = ("every client-visible command (41 command lines covering all request kinds a client can send, accepted and refused, including resolve, snapshot, create-user, set-permissions, increment, remove and the replicate-* / ack / election commands "
-        "sent by a client) issued on every node (and, in one scenario, on the two survivors after the primary died and a new one was elected) of 2- and 3-node clusters of real nodes; after each command messages are delivered in a seeded-random FIFO-respecting order with a budget of 200 deliveries (the bound is 1 + 2(k-1) + replies): "
+        "sent by a client) issued on every node (in the first-operations scenarios from the very first operation after the cluster formed, nothing unmeasured in between; and, in one scenario, on the two survivors after the primary died and a new one was elected) of 2- and 3-node clusters of real nodes; after each command messages are delivered in a seeded-random FIFO-respecting order with a budget of 200 deliveries (the bound is 1 + 2(k-1) + replies): "
         "the burst must end, with at most one forward to the primary, one copy per secondary, one acknowledgement per copy, no message between two secondaries. Every primitive operation also runs on the Lean model in lockstep. distinct by trace hash")
 
 def main(tier, seed):
